@@ -544,7 +544,7 @@ KNOWN_CASES = []
 
 
 def run(ctx, rep):
-    n = ctx.n(400, 20000)
+    n = ctx.n(400, 4000)
     cases = [{"seed": f"C34:{ctx.seed}:{i}"} for i in range(n)]
     cases += [{"src": f'print!("{frag.SENTINEL}")\n' + s + "\n", "sig": sig} for sig, s in KNOWN_CASES]
     for r in common.pmap(lambda c: run_one(ctx, c), cases):
